@@ -10,6 +10,12 @@ sys.path.append(str(ROOT / "vendor"))
 NOT_BUILT = "check not built yet at this commit (planned, see DESIGN.md section 5)"
 
 CHECKS = {
+    "C01": dict(
+        engine="E1-bfs", category="model_checking",
+        text="One BFS per (design-space layout x function kind x preprocessing switch vector) over call histories h.evaluate(p) / h.jac(p) for the objective and a constraint and evaluate_functions(p, design_vector_is_normalized=b) in value / Jacobian / both modes, on a real pre-processed OptimizationProblem: 7 layouts (bounded, one unbounded component, lb == ub, float+integer, integers only, size-2 + scalar, ParameterSpace), 5 function kinds (scalar quadratic, vector, dense and sparse MDOLinearFunction, csr Jacobian), switches normalized x database x store_jacobian x round_ints x differentiation {user, fd, cd, cs} x sparse support; after every step the returned value / Jacobian and the whole database (keys, order, names, physical Jacobians) are compared with a pure-Python reference model, and counters in the user's callables enforce at-most-once evaluation.",
+        note="quick: depth 3, switch vectors with <= 2 non-default switches (reduced menu for exactly 2); thorough: depth 3 on the full switch product + depth 4 on a 9-operation core menu; dyadic 3-point value alphabet (4 alphabets by VERIF_SEED) so affine maps are exact; states merged on database content; the n_calls counter of ProblemFunction is rebound to an in-process counter and sibling transitions are restored from a snapshot, with a from-scratch confirmation of every violating history.",
+        technique="explicit-state BFS over call histories of the real problem, reference model of physical point -> value / physical Jacobian, counters in the user's callables",
+    ),
     "C02": dict(
         engine="E1-bfs", category="model_checking",
         text="Every history of at most 3 (quick) / 4 (thorough) public DesignSpace mutators and cache-filling queries from 5 start spaces is executed on the real class; after every transition the view-consistency and normalization invariants I1-I7 are evaluated on a deep copy.  The implementation itself is the explored system, the reference model is the oracle (independent affine formulas).",
